@@ -3,6 +3,8 @@ import N2k.Lemmas.TPLink
 namespace N2k.TP
 open N2k.Send N2k.Time N2k.Spec
 
+variable {i : Nat}
+
 /-- bytes 0 .. 7k-1 of the padded payload: what the receiver has copied after `k` packets -/
 def gotBytes (m : Msg) (k : Nat) : List Nat := (List.range (7 * k)).map (payloadByte m)
 
@@ -85,7 +87,7 @@ variable (b : Node) (db : Dev) (m : Msg) (srcA j k mt : Nat) (S' : List Slot) (a
   (out : List Delivery) (fs rxq : List Frame)
 
 /-- **a data packet that is not the last one arrives** -/
-theorem rx_mid (hd : Lead b db) (hq : Quiet b.s 0) (hsrc : srcA < 256) (hdst : m.dst = db.source)
+theorem rx_mid (hd : Lead b i db) (hq : Quiet b.s i) (hsrc : srcA < 256) (hdst : m.dst = db.source)
     (hnone : findIdx (sessOf srcA db.source) S' = none) (hj : j < S'.length)
     (hk : 7 * (k + 1) < m.len) (hlen : m.len ≤ 223) :
     rxFrame (b.upd b.tp (S'.set j (sess a0 m srcA db.source mt k)) out fs rxq) (dtFrame srcA m k) =
@@ -95,9 +97,9 @@ theorem rx_mid (hd : Lead b db) (hq : Quiet b.s 0) (hsrc : srcA < 256) (hdst : m
   have hdsrc : db.source ≤ 251 := by
     exact hd.src hq
   generalize hN : b.upd b.tp (S'.set j (sess a0 m srcA db.source mt k)) out fs rxq = N
-  have hNq : Quiet N.s 0 := by subst hN; exact upd_quiet _ _ _ _ _ _ hq
-  have hNd : N.s.devs[0]? = some db := by subst hN; exact hd.dev0
-  have hfd : findDev N.s.devs db.source = some 0 := by subst hN; exact findDev_lead hd.dev0 (by omega)
+  have hNq : Quiet N.s i := by subst hN; exact upd_quiet _ _ _ _ _ _ hq
+  have hNd : N.s.devs[i]? = some db := by subst hN; exact hd.dev0
+  have hfd : findDev N.s.devs db.source = some i := by subst hN; exact findDev_lead (n := b) hd (by omega)
   have hfj : findIdx (sessOf srcA db.source) N.slots = some j := by
     subst hN; exact findIdx_set_of_none _ _ _ _ hnone hj (sessOf_sess _ _ _ _ _ _)
   have hsl : N.slots[j]? = some (sess a0 m srcA db.source mt k) := by
@@ -105,7 +107,7 @@ theorem rx_mid (hd : Lead b db) (hq : Quiet b.s 0) (hsrc : srcA < 256) (hdst : m
   have hnow : N.s.now = b.s.now := by subst hN; rfl
   have hk255 : k < 255 := by omega
   rw [dtFrame_eq, hdst, rxFrame_dt N srcA db.source _ hsrc (by omega) (dtBytes_length m k)]
-  rw [handleData_mid_quiet N srcA db.source 0 j db _ _ hNq hNd hsrc hfd hfj hsl
+  rw [handleData_mid_quiet N srcA db.source i j db _ _ hNq hNd hsrc hfd hfj hsl
         (by rw [dtBytes_head m k hk255]; rfl)
         (by show (copyBuf (gotBytes m k) 1 8 (dtBytes m k)).length < m.len
             rw [copyBuf_mid m k (by omega), gotBytes_length]; omega)]
@@ -125,7 +127,7 @@ theorem rx_mid (hd : Lead b db) (hq : Quiet b.s 0) (hsrc : srcA < 256) (hdst : m
     simp only [upd_setSlot, List.set_set, List.append_nil]
 
 /-- **the last data packet arrives**: EndOfMsgACK, one delivery of exactly the payload, the slot is free again -/
-theorem rx_last (hd : Lead b db) (hq : Quiet b.s 0) (hsrc : srcA < 256) (hdst : m.dst = db.source)
+theorem rx_last (hd : Lead b i db) (hq : Quiet b.s i) (hsrc : srcA < 256) (hdst : m.dst = db.source)
     (hnone : findIdx (sessOf srcA db.source) S' = none) (hj : j < S'.length)
     (hk : m.len ≤ 7 * (k + 1)) (hk' : 7 * k < m.len) (hlen : m.len ≤ 223) (hl : m.len ≤ m.data.length) :
     ∃ S'', rxFrame (b.upd b.tp (S'.set j (sess a0 m srcA db.source mt k)) out fs rxq) (dtFrame srcA m k) =
@@ -135,9 +137,9 @@ theorem rx_last (hd : Lead b db) (hq : Quiet b.s 0) (hsrc : srcA < 256) (hdst : 
   have hdsrc : db.source ≤ 251 := by
     exact hd.src hq
   generalize hN : b.upd b.tp (S'.set j (sess a0 m srcA db.source mt k)) out fs rxq = N
-  have hNq : Quiet N.s 0 := by subst hN; exact upd_quiet _ _ _ _ _ _ hq
-  have hNd : N.s.devs[0]? = some db := by subst hN; exact hd.dev0
-  have hfd : findDev N.s.devs db.source = some 0 := by subst hN; exact findDev_lead hd.dev0 (by omega)
+  have hNq : Quiet N.s i := by subst hN; exact upd_quiet _ _ _ _ _ _ hq
+  have hNd : N.s.devs[i]? = some db := by subst hN; exact hd.dev0
+  have hfd : findDev N.s.devs db.source = some i := by subst hN; exact findDev_lead (n := b) hd (by omega)
   have hfj : findIdx (sessOf srcA db.source) N.slots = some j := by
     subst hN; exact findIdx_set_of_none _ _ _ _ hnone hj (sessOf_sess _ _ _ _ _ _)
   have hsl : N.slots[j]? = some (sess a0 m srcA db.source mt k) := by
@@ -145,7 +147,7 @@ theorem rx_last (hd : Lead b db) (hq : Quiet b.s 0) (hsrc : srcA < 256) (hdst : 
   have hk255 : k < 255 := by omega
   obtain ⟨hge, htake⟩ := copyBuf_last m k (by omega) hlen hk hl
   rw [dtFrame_eq, hdst, rxFrame_dt N srcA db.source _ hsrc (by omega) (dtBytes_length m k)]
-  rw [handleData_last_quiet N srcA db.source 0 j db _ _ hNq hNd hsrc hfd hfj hsl
+  rw [handleData_last_quiet N srcA db.source i j db _ _ hNq hNd hsrc hfd hfj hsl
         (by rw [dtBytes_head m k hk255]; rfl) hge]
   have hreq : (sess a0 m srcA db.source mt k).reqCTS > 0 := tpCtsPackets_pos _
   rw [if_pos hreq, dtBytes_head m k hk255]
